@@ -90,7 +90,9 @@ func (s *Syncer) syncLoop(ctx context.Context, env *lmdb.Env, r *receiver.Receiv
 		}
 		s.l.WithError(err).Info("Waiting for initial receiver listing")
 		verifYield(s, "startup.listingFailed")
-		time.Sleep(time.Second)
+		if err := utils.SleepContext(ctx, time.Second); err != nil {
+			return err // context closed while the storage listing keeps failing
+		}
 	}
 
 	// Start tracker: Initial storage snapshots listed
